@@ -19,20 +19,84 @@ EXTENDS Utf8, Integers, FiniteSets
 CONSTANTS InlineMax, MinCap
 
 -----------------------------------------------------------------------------
+(* WTF-8 (generalized UTF-8): like UTF-8 but the surrogate code points U+D800..U+DFFF may be encoded   *)
+(* (ED A0..BF xx) as long as a lead surrogate is never directly followed by a trail surrogate - such  *)
+(* a pair is always written as the 4-byte encoding of the supplementary character it denotes.         *)
+\* the generalized code point starting at i: [n |-> length (0 = ill-formed or truncated), k |-> "whole" | "lead" | "trail"]
+GenAt(bs, i) ==
+    LET b0 == bs[i]
+        has(k) == i + k <= Len(bs)
+        ct(k) == IsCont(bs[i + k])
+        in(k, lo, hi) == bs[i + k] >= lo /\ bs[i + k] <= hi
+        W(n) == [n |-> n, k |-> "whole"]
+        Bad == [n |-> 0, k |-> "whole"] IN
+    IF b0 < 128 THEN W(1)
+    ELSE IF b0 >= 194 /\ b0 <= 223 THEN (IF has(1) /\ ct(1) THEN W(2) ELSE Bad)
+    ELSE IF b0 = 224 THEN (IF has(2) /\ in(1, 160, 191) /\ ct(2) THEN W(3) ELSE Bad)
+    ELSE IF b0 = 237 THEN
+        IF ~(has(2) /\ ct(1) /\ ct(2)) THEN Bad
+        ELSE IF bs[i + 1] <= 159 THEN W(3)
+        ELSE IF bs[i + 1] <= 175 THEN [n |-> 3, k |-> "lead"] ELSE [n |-> 3, k |-> "trail"]
+    ELSE IF b0 >= 225 /\ b0 <= 239 THEN (IF has(2) /\ ct(1) /\ ct(2) THEN W(3) ELSE Bad)
+    ELSE IF b0 = 240 THEN (IF has(3) /\ in(1, 144, 191) /\ ct(2) /\ ct(3) THEN W(4) ELSE Bad)
+    ELSE IF b0 >= 241 /\ b0 <= 243 THEN (IF has(3) /\ ct(1) /\ ct(2) /\ ct(3) THEN W(4) ELSE Bad)
+    ELSE IF b0 = 244 THEN (IF has(3) /\ in(1, 128, 143) /\ ct(2) /\ ct(3) THEN W(4) ELSE Bad)
+    ELSE Bad
+RECURSIVE GenScan(_, _, _, _)
+\* strict = TRUE: a lead surrogate directly followed by a trail surrogate is rejected (a whole WTF-8 string);
+\* strict = FALSE: only the code point structure is checked (a slice of a valid string)
+GenScan(bs, i, prevLead, strict) ==
+    IF i > Len(bs) THEN TRUE
+    ELSE LET g == GenAt(bs, i) IN
+         IF g.n = 0 THEN FALSE
+         ELSE IF strict /\ prevLead /\ g.k = "trail" THEN FALSE
+         ELSE GenScan(bs, i + g.n, g.k = "lead", strict)
+Wtf8Valid(bs) == GenScan(bs, 1, FALSE, TRUE)
+GenWellFormed(bs) == GenScan(bs, 1, FALSE, FALSE)
+\* concatenation in WTF-8: a lead surrogate ending the left part and a trail surrogate starting the right part
+\* become the 4-byte encoding of the supplementary character
+EndsWithLead(v) == Len(v) >= 3 /\ v[Len(v) - 2] = 237 /\ v[Len(v) - 1] >= 160 /\ v[Len(v) - 1] <= 175 /\ IsCont(v[Len(v)])
+                   /\ GenWellFormed(v)
+StartsWithTrail(b) == Len(b) >= 3 /\ b[1] = 237 /\ b[2] >= 176 /\ b[2] <= 191 /\ IsCont(b[3])
+Wtf8Join(v, b) ==
+    IF EndsWithLead(v) /\ StartsWithTrail(b) THEN
+        LET hi == (v[Len(v) - 1] - 160) * 64 + (v[Len(v)] - 128)            \* 10 bits of the lead surrogate
+            lo == (b[2] - 176) * 64 + (b[3] - 128)                         \* 10 bits of the trail surrogate
+            cp == 65536 + hi * 1024 + lo IN
+        SubSeq(v, 1, Len(v) - 3) \o Utf8Enc(cp) \o SubSeq(b, 4, Len(b))
+    ELSE v \o b
+
 (* formats *)
 Valid(f, b) == CASE f = "utf8" -> WellFormed(b)
+                 [] f = "wtf8" -> Wtf8Valid(b)
                  [] f = "ascii" -> \A i \in DOMAIN b : b[i] <= 127
                  [] OTHER -> TRUE              \* bytes, latin1
 \* a slice of a valid tendril may be taken iff it is itself valid in the format
-\* (ASCII, Latin-1 and Bytes: always; UTF-8: the cuts fall on character boundaries)
-ValidSlice(f, b) == IF f = "utf8" THEN WellFormed(b) ELSE TRUE
+\* (ASCII, Latin-1 and Bytes: always; UTF-8 / WTF-8: the cuts fall on character boundaries)
+ValidSlice(f, b) == IF f = "utf8" THEN WellFormed(b) ELSE IF f = "wtf8" THEN GenWellFormed(b) ELSE TRUE
+\* concatenation of two values of a format
+Cat(f, v, b) == IF f = "wtf8" THEN Wtf8Join(v, b) ELSE v \o b
+
+(* characters (formats with characters: UTF-8, ASCII, Latin-1) *)
+\* the first character of a valid value: [cp, n] (n bytes)
+FirstChar(f, v) == IF f = "utf8" THEN LET n == SeqLen(v[1]) IN [cp |-> Scalar(v, 1, n), n |-> n] ELSE [cp |-> v[1], n |-> 1]
+CharBytes(f, cp) == IF f = "utf8" THEN Utf8Enc(cp) ELSE <<cp>>
+CharOk(f, cp) == IF f = "utf8" THEN ~IsSurrogate(cp) /\ cp <= 1114111 ELSE IF f = "ascii" THEN cp <= 127 ELSE cp <= 255
+\* the classes the harness's pop_front_char_run uses: 0 = ASCII letter, 1 = ASCII whitespace, 2 = anything else
+CharClass(cp) == IF IsAsciiAlpha(cp) THEN 0 ELSE IF IsWsCr(cp) THEN 1 ELSE 2
+RECURSIVE RunLen(_, _, _, _)
+\* number of bytes of the maximal prefix (from byte i) whose characters all have class c
+RunLen(f, v, i, c) ==
+    IF i > Len(v) THEN Len(v)
+    ELSE LET fc == FirstChar(f, SubSeq(v, i, Len(v))) IN
+         IF CharClass(fc.cp) # c THEN i - 1 ELSE RunLen(f, v, i + fc.n, c)
 
 -----------------------------------------------------------------------------
 (* L0 *)
 Ok(v) == [ok |-> TRUE, err |-> "", val |-> v]
 Err(e) == [ok |-> FALSE, err |-> e, val |-> <<>>]
 
-L0TryPush(f, v, b) == IF Valid(f, b) THEN Ok(v \o b) ELSE Err("invalid")
+L0TryPush(f, v, b) == IF Valid(f, b) THEN Ok(Cat(f, v, b)) ELSE Err("invalid")
 L0TrySub(f, v, off, len) ==
     IF off > Len(v) \/ len > Len(v) - off THEN Err("oob")
     ELSE IF ~ValidSlice(f, SubSeq(v, off + 1, off + len)) THEN Err("validation")
